@@ -435,7 +435,9 @@ func retries(prop string) int {
 	if prop == "C17" || prop == "C18" {
 		return 4
 	}
-	return 1
+	// runs with log-statement yields can make two transaction timers share an instant
+	// (their callbacks' order is then the runtime's): one extra try everywhere
+	return 2
 }
 
 func replayMatches(bin, path, prop, sig string, gomaxprocs int) (*Violation, bool) {
